@@ -40,6 +40,30 @@ type epOpts struct {
 	clientQueue  ocppj.RequestQueue
 	clientState  ocppj.ClientState
 	queueMap     ocppj.ServerQueueMap
+	// the reader is slow between the completion of a request and the invocation of its response / error handler
+	slowComplete time.Duration
+}
+
+// dispatchers whose CompleteRequest, as called by the ocppj reader through the interface, returns late
+// (the message pump calls the embedded dispatcher's own method and is not slowed down)
+type slowClientDisp struct {
+	*ocppj.DefaultClientDispatcher
+	d time.Duration
+}
+
+func (s slowClientDisp) CompleteRequest(id string) {
+	s.DefaultClientDispatcher.CompleteRequest(id)
+	time.Sleep(s.d)
+}
+
+type slowServerDisp struct {
+	*ocppj.DefaultServerDispatcher
+	d time.Duration
+}
+
+func (s slowServerDisp) CompleteRequest(clientID, id string) {
+	s.DefaultServerDispatcher.CompleteRequest(clientID, id)
+	time.Sleep(s.d)
 }
 
 var idCounter int64
@@ -100,7 +124,11 @@ func newEndpoint(ver, role string, o epOpts) *endpoint {
 		}
 		d := ocppj.NewDefaultClientDispatcher(q)
 		d.SetTimeout(o.timeout)
-		e.jclient = ocppj.NewClient("cp1", e.fc, d, o.clientState, profileList(ver)...)
+		var cd ocppj.ClientDispatcher = d
+		if o.slowComplete > 0 {
+			cd = slowClientDisp{d, o.slowComplete}
+		}
+		e.jclient = ocppj.NewClient("cp1", e.fc, cd, o.clientState, profileList(ver)...)
 		if ver == "R16" {
 			cp := ocpp16.NewChargePoint("cp1", e.jclient, e.fc)
 			installStubs_R16_cp(cp, e.hub, o.skipHandlers)
@@ -132,7 +160,11 @@ func newEndpoint(ver, role string, o epOpts) *endpoint {
 		}
 		d := ocppj.NewDefaultServerDispatcher(qm)
 		d.SetTimeout(o.timeout)
-		e.jserver = ocppj.NewServer(e.fs, d, nil, profileList(ver)...)
+		var sd ocppj.ServerDispatcher = d
+		if o.slowComplete > 0 {
+			sd = slowServerDisp{d, o.slowComplete}
+		}
+		e.jserver = ocppj.NewServer(e.fs, sd, nil, profileList(ver)...)
 		if ver == "R16" {
 			cs := ocpp16.NewCentralSystem(e.jserver, e.fs)
 			installStubs_R16_cs(cs, e.hub, o.skipHandlers)
